@@ -77,6 +77,8 @@ def desc_from_json(j):
             if key in c:
                 c[key] = [tup(e) for e in c[key]]
         c['offs'] = [(tup(e), o) for e, o in c.get('offs', [])]
+        if 'infops' in c:
+            c['infops'] = [tup(op) for op in c['infops']]
     return d
 
 
